@@ -260,3 +260,159 @@ macro_rules! enc_fds {
 }
 enc_fds!(c01_enc_ah_p0, 0);
 enc_fds!(c01_enc_ah_p2, 2);
+
+// ------------------------------------------------------------------ C01: one struct shape, per offset
+macro_rules! enc_struct_yu {
+    ($h:ident, $pos:expr) => {
+        #[kani::proof]
+        #[kani::unwind(9)]
+        #[kani::stub(alloc::fmt::format, no_format)]
+        #[kani::stub(<std::os::fd::OwnedFd as core::ops::Drop>::drop, no_close)]
+        fn $h() {
+            let v: (u8, u32) = kani::any();
+            let be: bool = kani::any();
+            let mut buf = [0u8; 32];
+            let mut cur = Cursor::new(&mut buf[..]);
+            let r = unsafe {
+                to_writer_for_signature(
+                    &mut cur,
+                    ctx($pos, be),
+                    Signature::static_structure(&[&Signature::U8, &Signature::U32]),
+                    &v,
+                )
+            };
+            let mut m = Out::new($pos, be);
+            m.struct_begin();
+            m.u8(v.0);
+            m.u32(v.1);
+            match &r {
+                Ok(w) => {
+                    kani::cover!(be, "big endian");
+                    kani::cover!(!be, "little endian");
+                    assert!(w.size() == m.len, "struct: encoded length differs from the D-Bus marshalling rules");
+                    assert!(same32(&buf, &model32(&m)), "struct: encoded bytes differ from the D-Bus marshalling rules");
+                }
+                Err(_) => assert!(false, "encoding a well-typed struct failed"),
+            }
+            core::mem::forget(r);
+        }
+    };
+}
+enc_struct_yu!(c01_enc_yu_p0, 0);
+enc_struct_yu!(c01_enc_yu_p5, 5);
+
+/// array of one struct: `a(yu)` (8-byte element alignment), per offset
+macro_rules! enc_array_of_struct {
+    ($h:ident, $pos:expr) => {
+        #[kani::proof]
+        #[kani::unwind(9)]
+        #[kani::stub(alloc::fmt::format, no_format)]
+        #[kani::stub(<std::os::fd::OwnedFd as core::ops::Drop>::drop, no_close)]
+        fn $h() {
+            static YU: Signature = Signature::static_structure(&[&Signature::U8, &Signature::U32]);
+            let v: [(u8, u32); 1] = kani::any();
+            let be: bool = kani::any();
+            let mut buf = [0u8; 32];
+            let mut cur = Cursor::new(&mut buf[..]);
+            let r = unsafe { to_writer_for_signature(&mut cur, ctx($pos, be), Signature::static_array(&YU), &v[..]) };
+            let mut m = Out::new($pos, be);
+            let mark = m.array_begin(8);
+            m.struct_begin();
+            m.u8(v[0].0);
+            m.u32(v[0].1);
+            m.array_end(mark);
+            match &r {
+                Ok(w) => {
+                    kani::cover!(be, "big endian");
+                    kani::cover!(!be, "little endian");
+                    assert!(w.size() == m.len, "array of structs: encoded length differs from the D-Bus marshalling rules");
+                    assert!(same32(&buf, &model32(&m)), "array of structs: encoded bytes differ from the D-Bus marshalling rules");
+                }
+                Err(_) => assert!(false, "encoding a well-typed array of structs failed"),
+            }
+            core::mem::forget(r);
+        }
+    };
+}
+enc_array_of_struct!(c01_enc_ayu_p0, 0);
+enc_array_of_struct!(c01_enc_ayu_p4, 4);
+
+/// a variant holding a u32 (dynamic `Value`), per offset: signature `u` as a SIGNATURE, then the aligned value
+macro_rules! enc_variant_u {
+    ($h:ident, $pos:expr) => {
+        #[kani::proof]
+        #[kani::unwind(9)]
+        #[kani::stub(alloc::fmt::format, no_format)]
+        #[kani::stub(<std::os::fd::OwnedFd as core::ops::Drop>::drop, no_close)]
+        fn $h() {
+            let x: u32 = kani::any();
+            let v = zvariant::Value::U32(x);
+            let be: bool = kani::any();
+            let mut buf = [0u8; 32];
+            let mut cur = Cursor::new(&mut buf[..]);
+            let r = unsafe { to_writer_for_signature(&mut cur, ctx($pos, be), Signature::Variant, &v) };
+            let mut m = Out::new($pos, be);
+            m.signature(b"u");
+            m.u32(x);
+            match &r {
+                Ok(w) => {
+                    kani::cover!(be, "big endian");
+                    kani::cover!(!be, "little endian");
+                    assert!(w.size() == m.len, "variant: encoded length differs from the D-Bus marshalling rules");
+                    assert!(same32(&buf, &model32(&m)), "variant: encoded bytes differ from the D-Bus marshalling rules");
+                }
+                Err(_) => assert!(false, "encoding a variant failed"),
+            }
+            core::mem::forget(r);
+            core::mem::forget(v);
+        }
+    };
+}
+enc_variant_u!(c01_enc_v_u_p0, 0);
+enc_variant_u!(c01_enc_v_u_p3, 3);
+
+// ------------------------------------------------------------------ C03: one struct shape from arbitrary bytes, per offset
+macro_rules! dec_struct_yu {
+    ($h:ident, $pos:expr, $N:expr) => {
+        #[kani::proof]
+        #[kani::unwind(10)]
+        #[kani::stub(alloc::fmt::format, no_format)]
+        #[kani::stub(<std::os::fd::OwnedFd as core::ops::Drop>::drop, no_close)]
+        fn $h() {
+            let buf: [u8; $N] = kani::any();
+            let be: bool = kani::any();
+            let data = Data::new(&buf[..], ctx($pos, be));
+            let r = data.deserialize_for_signature::<_, (u8, u32)>(Signature::static_structure(&[&Signature::U8, &Signature::U32]));
+            // reference: pad to 8 with zeros, y, pad to 4 with zeros, u
+            const P0: usize = (8 - $pos % 8) % 8;
+            let mut ok = $N >= P0 + 8;
+            let mut i = 0;
+            while i < P0 && i < $N {
+                ok &= buf[i] == 0;
+                i += 1;
+            }
+            if $N >= P0 + 8 {
+                ok &= buf[P0 + 1] == 0 && buf[P0 + 2] == 0 && buf[P0 + 3] == 0;
+            }
+            match &r {
+                Ok(((y, u), used)) => {
+                    kani::cover!(true, "valid encoding accepted");
+                    assert!(ok, "struct decoder accepted an invalid encoding (non-zero padding or truncated)");
+                    assert!(*used == P0 + 8, "struct: consumed byte count differs");
+                    assert!(*y == buf[P0]);
+                    let w = [buf[P0 + 4], buf[P0 + 5], buf[P0 + 6], buf[P0 + 7]];
+                    let want = if be { u32::from_be_bytes(w) } else { u32::from_le_bytes(w) };
+                    assert!(*u == want, "struct: field value differs");
+                }
+                Err(_) => {
+                    kani::cover!(true, "invalid encoding rejected");
+                    assert!(!ok, "struct decoder rejected a valid encoding");
+                }
+            }
+            core::mem::forget(r);
+            core::mem::forget(data);
+        }
+    };
+}
+dec_struct_yu!(c03_dec_yu_p0, 0, 8);
+dec_struct_yu!(c03_dec_yu_p5, 5, 11);
